@@ -206,7 +206,9 @@ def _worker_task(task):
         res["error"] = "unsupported: " + str(e) + " @ " + _where()
         _candidate_replay(h, case, res)
     except SolverUnknown as e:
-        res["error"] = "solver-unknown: " + str(e)
+        if os.environ.get("PYSYM_TRACE"):
+            traceback.print_exc()
+        res["error"] = "solver-unknown: " + str(e) + " @ " + _where()
         _candidate_replay(h, case, res)
     except BaseException as e:  # interpreter bug
         if os.environ.get("PYSYM_TRACE"):
